@@ -35,8 +35,58 @@ def conv_world(g, r, base):
         if r.chance(1, 3):
             lines.append("forget %d %d" % (a, b))
         sid += 1000
-        lines.append("conv %d %d 16 sid=%d%s" % (a, b, sid, " maxpolls=8" if base["kind"] == "bigseg" else ""))
+        # a third of the loops run every session with receive buffers that are too small first (retries with larger ones)
+        bufs = (" bufs=" + r.choice(SMALL_BUFS)) if r.chance(1, 3) else ""
+        lines.append("conv %d %d 16 sid=%d%s%s" % (a, b, sid, " maxpolls=8" if base["kind"] == "bigseg" else "", bufs))
     return {"kind": "conv:" + base["kind"], "lines": lines}
+
+
+SMALL_BUFS = ["3,40/0,41/3/60,200", "0/3,40/3,40/2", "40/40/3,40/40/3", "3,40,300/3/0,5000/3"]
+
+
+def midfork_world(g, r):
+    """The requester advertises a command strictly INSIDE a responder segment that has further commands after it.
+    Per stage: the author (client 0) extends its chain; requester Q_s copies the prefix up to a middle command and adds
+    its own child of it; the author finishes the stage; the responder (client 1) receives the stage's commands in ONE
+    transaction (one segment).  Optionally the responder also holds the fork branch (the fork's prior is mid-segment)."""
+    stages = r.choice([1, 2, 2, 3])
+    k = 2 + 2 * stages
+    lines = ["world %d" % k, "init 0 %d 8" % g.nn()]
+    g.acts(lines, 0, r.choice([1, 2]), prio=0)
+    if r.chance(1, 2):
+        lines.append("feed 1 0")
+    learn = []
+    reqs = []
+    for s_ in range(stages):
+        n = r.choice([3, 4, 4, 6, 9, 12, 40, 130] if s_ else [4, 4, 5, 8, 12, 40, 130, 250])
+        m = r.choice([1, 2, n // 2, n - 1, r.range(1, n - 1)])
+        m = max(1, min(m, n - 1))
+        q, q2 = 2 + 2 * s_, 3 + 2 * s_
+        g.acts(lines, 0, m, prio=0)
+        lines.append("feed %d 0" % q)
+        g.acts(lines, q, r.choice([1, 1, 2, 5]), prio=r.choice([0, 1]))
+        g.acts(lines, 0, n - m, prio=0)
+        lines.append("feed 1 0")
+        if r.chance(1, 2):
+            # the requester is a copy that received prefix + fork branch in ONE transaction: it advertises the branch tip
+            # but NOT the fork point; the responder holds the branch, whose prior lies mid-segment
+            lines.append("feed %d %d" % (q2, q))
+            learn.append(q)
+            reqs.append(q2)
+        else:
+            if r.chance(1, 2):
+                learn.append(q)
+            reqs.append(q)
+    sid = 50000
+    for q in learn:
+        sid += 1
+        lines.append("sess 1 %d sid=%d" % (q, sid))                # the responder holds the fork branch too
+    r.shuffle(reqs)
+    for q in reqs:
+        sid += 1000
+        bufs = (" bufs=" + r.choice(SMALL_BUFS)) if r.chance(1, 3) else ""
+        lines.append("conv %d 1 10 sid=%d maxpolls=12 cache=%s%s" % (q, sid, r.choice(["keep", "fresh"]), bufs))
+    return {"kind": "midfork", "lines": lines}
 
 
 def gen_cases(ctx):
@@ -52,6 +102,7 @@ def gen_cases(ctx):
     cases += [conv_world(g, r, g.straddle()) for _ in range(n_str)]
     cases += [conv_world(g, r, g.partial()) for _ in range(max(2, n_str // 2))]
     cases += [conv_world(g, r, g.bigseg()) for _ in range(4 if ctx.thorough else 1)]
+    cases += [midfork_world(g, r) for _ in range(50 if ctx.thorough else 8)]
     return cases
 
 
@@ -113,7 +164,9 @@ def run(ctx):
     known_hits = 0
     stats = {"worlds": 0, "sessions": 0, "sessions_with_missing": 0, "sessions_delivering_new": 0, "quiescent_sessions": 0,
              "f11_sessions": 0, "conv_loops": 0, "conv_rounds_max": 0, "new_commands_total": 0, "redundant_commands_total": 0,
-             "sample_full": 0, "sessions_responder_over_100_segments": 0, "have_inside_segment": 0, "sessions_with_frontier_progress": 0, "nonempty_sessions": 0, "kinds": {}}
+             "sample_full": 0, "sessions_responder_over_100_segments": 0, "have_inside_segment": 0, "sessions_with_frontier_progress": 0, "nonempty_sessions": 0,
+             "sessions_with_failing_polls": 0, "failed_polls": 0, "complete_sessions_checked": 0, "complete_sessions_after_failing_polls": 0,
+             "fork_inside_responder_segment": 0, "kinds": {}}
     wf_bad = []
     for ci, case in enumerate(cases):
         ev, err = S.run_world(binp, case)
@@ -146,6 +199,12 @@ def run(ctx):
             stats["sessions_responder_over_100_segments"] += 1 if len(db["segs"]) > 100 else 0
             tips_b = {s_["cmds"][-1]["id"] for s_ in db["segs"]}
             stats["have_inside_segment"] += 1 if any(x[0] in com_b and x[0] not in tips_b for x in sess["sample"]) else 0
+            # a have-location strictly inside a responder segment, with further commands after it that the requester lacks
+            pos_b = {c["id"]: (s_["idx"], k_, len(s_["cmds"])) for s_ in db["segs"] for k_, c in enumerate(s_["cmds"])}
+            stats["fork_inside_responder_segment"] += 1 if any(
+                x[0] in pos_b and pos_b[x[0]][1] + 1 < pos_b[x[0]][2] and
+                any(c["id"] not in com_a for s_ in db["segs"] if s_["idx"] == pos_b[x[0]][0] for c in s_["cmds"][pos_b[x[0]][1] + 1:])
+                for x in sess["sample"]) else 0
             w = S.dump_wf(db)
             if w:
                 wf_bad.append((ci, si, w[:2]))
@@ -171,6 +230,22 @@ def run(ctx):
                 else:
                     why = "session delivered %d commands, none of the %d missing ones (not the recorded F11 class: sample %d, requester-only segments %d, cache %d)" % (
                         len(stream), len(missing), len(sess["sample"]), a_only, len(cache))
+            fails = [at for at in sess["attempts"] if not at["ok"] and at["err"] in ("BufferTooSmall", "Serialize")]
+            stats["sessions_with_failing_polls"] += 1 if fails else 0
+            stats["failed_polls"] += len(fails)
+            hh = max([dag.mc[x[0]] for x in sess["sample"] if x[0] in com_b] or [0])
+            no_jump = all(h[2] <= hh + SAMPLE_MAX for h in db["heads"])      # skip_jump target = highest have + SEGMENT_BUFFER_MAX
+            if ended and not why and len(db["segs"]) <= 100 and no_jump:
+                # an untruncated session (at most SEGMENT_BUFFER_MAX segments, no skip-jump below the heads) that finished with
+                # SyncEnd delivers every command of the responder that is not an ancestor-or-equal of an advertised command
+                # (the model's ideal message sequence) — also after failing polls
+                adv0 = dag.ancestors([x[0] for x in sess["sample"] if x[0] in com_b])
+                owed = com_b - adv0
+                stats["complete_sessions_checked"] += 1
+                stats["complete_sessions_after_failing_polls"] += 1 if fails else 0
+                if not owed <= set(stream):
+                    why = "session ended with SyncEnd but skipped %d of the %d commands it had to send%s" % (
+                        len(owed - set(stream)), len(owed), " (after %d polls that failed for lack of buffer space)" % len(fails) if fails else "")
             if stream:
                 # frontier progress (hypothesis of the measure theorem; measured, not a violation by itself: a session
                 # that delivers no missing command while some are missing is judged above)
